@@ -363,6 +363,38 @@ func randValue(r *RNG, c colKind, ext map[string][]string) string {
 	case 246:
 		p, s := c.md>>8, c.md&0xff
 		i, f := digitString(r, p-s, r.Pick(0, 2, 2)), digitString(r, s, r.Pick(0, 2, 2))
+		if r.Chance(1, 3) {
+			// round values: whole 9-digit groups (counted from the decimal point, as they are stored) that are all
+			// zeros or all nines next to groups that are not - 5000000000.25, 999999999000000000, 1000000000000000001
+			grp := func(n int) string {
+				switch r.Intn(4) {
+				case 0:
+					return strings.Repeat("0", n)
+				case 1:
+					return strings.Repeat("9", n)
+				case 2:
+					return strings.Repeat("0", n-1) + strconv.Itoa(r.Range(1, 9))
+				}
+				return digitString(r, n, 2)
+			}
+			build := func(n int, fromRight bool) string {
+				out := ""
+				for n > 0 {
+					k := 9
+					if n < 9 {
+						k = n
+					}
+					if fromRight {
+						out = grp(k) + out
+					} else {
+						out += grp(k)
+					}
+					n -= k
+				}
+				return out
+			}
+			i, f = build(p-s, true), build(s, false)
+		}
 		neg := r.Intn(2)
 		if strings.Trim(i+f, "0") == "" {
 			neg = 0
@@ -493,6 +525,14 @@ func genTables(r *RNG, o histOpts) []*hTable {
 		t := &hTable{id: uint64(100 + i*7), db: "db" + randName(r, r.Intn(5)), name: "t" + strconv.Itoa(i) + "-" + randName(r, r.Intn(6))}
 		if r.Chance(1, 5) {
 			t.id = uint64(r.U64() & 0xffffffff) // fits both id widths
+			if r.Chance(1, 3) {
+				t.id = []uint64{0, 0xffffff, 0x1000000, 0xffffffff, 0xfffffffe, 0x7fffffff, 0x80000000}[r.Intn(7)]
+			}
+			for _, o := range ts { // ids stay distinct inside one generated set
+				if o.id == t.id {
+					t.id = uint64(100 + i*7)
+				}
+			}
 		}
 		for c := 0; c < nc; c++ {
 			k := randColumn(r, o.allowTZ)
@@ -625,6 +665,15 @@ func genStmt(r *RNG, kw string, o histOpts, ts uint32) *hStmt {
 			s.vars = append(s.vars, fmt.Sprintf("%d.%s", r.Range(7, 20), hx(r.Bytes(r.Intn(9)))))
 		}
 	}
+	// a status-variable block of 256 bytes and more (Q_UPDATED_DB_NAMES with several long schema names, an invoker, …
+	// - codes this parser does not look into): its 2-byte length is needed in full to find the statement text, also
+	// for BEGIN / COMMIT / ROLLBACK, which every server version sends with status variables
+	if r.Chance(1, 5) {
+		if (kw == "begin" || kw == "commit" || kw == "rollback") && r.Bool() {
+			s.vars = append(s.vars, "0."+hx(r.Bytes(4)), "1."+hx(r.Bytes(8)))
+		}
+		s.vars = append(s.vars, fmt.Sprintf("%d.%s", r.Range(7, 20), hx(r.Bytes(r.Pick(243, 250, 255, 256, 300, 600, 5000)))))
+	}
 	return s
 }
 
@@ -720,7 +769,13 @@ func genHistory(r *RNG, o histOpts, cfg string) *hist {
 				kind = "rst"
 			}
 			restarted = restarted || kind == "rst"
-			h.units = append(h.units, hUnit{kind: kind, file: fmt.Sprintf("bin.%06d", fileNo*r.Pick(1, 1, 10, 100))})
+			fname := fmt.Sprintf("bin.%06d", fileNo*r.Pick(1, 1, 10, 100))
+			if r.Chance(1, 5) {
+				// a name that sorts BELOW its predecessor as a string (mysql-bin.999999 -> mysql-bin.1000000; a changed
+				// log_bin basename): names are opaque, only ROTATE events order the files
+				fname = fmt.Sprintf("bim.%d", 1000000-fileNo)
+			}
+			h.units = append(h.units, hUnit{kind: kind, file: fname})
 		case o.ignorable:
 			switch r.Intn(6) {
 			case 0:
